@@ -393,5 +393,8 @@ class Ctx:
                 unlisted_failures=sorted({f['signature'] for f in unknown})[:20], broken_obligations=self.broken[:20],
                 **self.extra),
             assumptions=self.assumptions, wall_s=round(time.time() - self.t0, 2), violations=nviol)
-        (VERIF / 'evidence').mkdir(exist_ok=True)
-        (VERIF / 'evidence' / f'{self.prop}.json').write_text(json.dumps(ev, indent=1, default=str) + '\n')
+        # evidence/ describes /repo itself; a run against a scratch tree (SHELXFILE_REPO=…, seeded / harmless validation)
+        # must not overwrite it
+        edir = VERIF / 'evidence' if REPO == Path('/repo') else VERIF / 'replays' / 'scratch-evidence'
+        edir.mkdir(parents=True, exist_ok=True)
+        (edir / f'{self.prop}.json').write_text(json.dumps(ev, indent=1, default=str) + '\n')
